@@ -1656,6 +1656,8 @@ def rule_pool_joins(ctx, rid, r):
         elif isinstance(st, ast.Expr) and isinstance(st.value, ast.Call) and isinstance(st.value.func, ast.Attribute) \
                 and st.value.func.attr == "append" and isinstance(st.value.func.value, ast.Name) and st.value.args and st.value.args[0] is sc:
             lst = st.value.func.value.id  # recorded with the value of the call that started it: not recorded if that call is interrupted
+        elif isinstance(st, ast.Assign) and len(st.targets) == 1 and isinstance(st.targets[0], ast.Name) and st.value is sc:
+            lst = st.targets[0].id  # the callee starts the threads and hands back the collection that is joined
         ok_l = lst is not None and recorded_first
         ctx.ob(rid, f"{pool.short}/joins-all-started", ok_l, loc(pool, sc),
                "every thread is recorded in the list that is joined before it is started" if ok_l else
